@@ -10,17 +10,16 @@ open DepsDev.Model.Resolve.ApiClient
 
 theorem lookup_cons_ite {β : Type} (k k' : Bytes) (v : β) (l : List (Bytes × β)) :
     List.lookup k ((k', v) :: l) = if k = k' then some v else List.lookup k l := by
-  rw [List.lookup_cons]
   by_cases h : k = k'
-  · simp [h]
+  · subst h
+    simp
   · have : (k == k') = false := by simpa using h
-    simp [this, h]
+    simp [List.lookup_cons, this, h]
 
 theorem mangledName_ne_name (root : VersionKey) (pkgs : List Bytes) : mangledName root pkgs ≠ root.name := by
   intro h
   have := congrArg List.length h
   simp [mangledName] at this
-  omega
 
 theorem mangledOf_ne_name (root : VersionKey) (b : Bundle) : mangledOf root b ≠ root.name :=
   mangledName_ne_name root _
@@ -37,8 +36,8 @@ theorem parentNameOf_cases (root : VersionKey) (b : Bundle) :
     parentNameOf root b = root.name ∨ ∃ pkgs, parentNameOf root b = mangledName root pkgs := by
   unfold parentNameOf
   by_cases h : (pkgsOf b.path).length - 1 > 0
-  · exact Or.inr ⟨_, by simp [h]⟩
-  · exact Or.inl (by simp [h])
+  · exact Or.inr ⟨_, if_pos h⟩
+  · exact Or.inl (if_neg h)
 
 /-- the store after the write: the bundler's own key is untouched, every other key
 of `allDeps` holds its current entry, the rest is unchanged. -/
@@ -117,18 +116,18 @@ theorem stepBundle_invA {root : VersionKey} {D : Bundle → Prop} {all all' : Al
     · intro x hx
       rw [lookup_cons_ite]
       by_cases hk : mangledOf root x = parentNameOf root b
-      · exact ⟨_, by simp [hk]⟩
+      · exact ⟨_, if_pos hk⟩
       · simp only [hk, if_false]
         rw [lookup_cons_ite]
         by_cases hm : mangledOf root x = mangledOf root b
-        · exact ⟨_, by simp [hm]⟩
+        · exact ⟨_, if_pos hm⟩
         · simp only [hm, if_false]
           rcases hx with rfl | hx
           · exact absurd rfl hm
           · exact inv.present x hx
     · rw [lookup_cons_ite]
       by_cases hk : root.name = parentNameOf root b
-      · exact ⟨_, by simp [hk]⟩
+      · exact ⟨_, if_pos hk⟩
       · simp only [hk, if_false]
         rw [lookup_cons_ite]
         have : root.name ≠ mangledOf root b := fun e => mangledOf_ne_name root b e.symm
@@ -194,7 +193,7 @@ theorem stepBundle_parentInv {root : VersionKey} {D : Bundle → Prop} {all all'
     subst h
     intro x hx
     rcases hx with rfl | hx
-    · exact ⟨_, by rw [lookup_cons_ite]; simp, by simp⟩
+    · exact ⟨_, by rw [lookup_cons_ite]; exact if_pos rfl, by simp⟩
     · obtain ⟨pacc, hl, hmem⟩ := pinv x hx
       -- the parent's key is not the key just (re)written
       have hne : parentNameOf root x ≠ mangledOf root b := by
@@ -207,7 +206,7 @@ theorem stepBundle_parentInv {root : VersionKey} {D : Bundle → Prop} {all all'
         rw [lookup_cons_ite]; simp [hne, hl]
       rw [lookup_cons_ite]
       by_cases hk : parentNameOf root x = parentNameOf root b
-      · refine ⟨_, by simp [hk], ?_⟩
+      · refine ⟨_, if_pos hk, ?_⟩
         have : pb = pacc := by
           rw [hk] at hl1
           rw [hl1] at hp
@@ -258,11 +257,13 @@ theorem inj_of_nodup_map {α β : Type} (f : α → β) : ∀ {l : List α}, (l.
   | [], _, _, _, ha, _, _ => by cases ha
   | x :: l, h, a, b, ha, hb, e => by
     simp only [List.map_cons, List.nodup_cons, List.mem_map, not_exists, not_and] at h
-    rcases List.mem_cons.mp ha with rfl | ha <;> rcases List.mem_cons.mp hb with rfl | hb
-    · rfl
-    · exact absurd e.symm (h.1 b hb)
-    · exact absurd e (h.1 a ha)
-    · exact inj_of_nodup_map f h.2 ha hb e
+    rcases List.mem_cons.mp ha with hax | hal
+    · rcases List.mem_cons.mp hb with hbx | hbl
+      · exact hax.trans hbx.symm
+      · exact absurd (e.symm.trans (congrArg f hax)) (h.1 b hbl)
+    · rcases List.mem_cons.mp hb with hbx | hbl
+      · exact absurd (e.trans (congrArg f hbx)) (h.1 a hal)
+      · exact inj_of_nodup_map f h.2 hal hbl e
 
 /-! ### What `buildAllDeps` returns -/
 
@@ -273,7 +274,7 @@ theorem invA_init (root : VersionKey) (acc : BundleAcc) : InvA root (fun _ => Fa
       · exact Or.inl hk
       · simp [hk] at hl,
     fun _ hb => hb.elim,
-    ⟨acc, by rw [lookup_cons_ite]; simp⟩⟩
+    ⟨acc, by rw [lookup_cons_ite]; exact if_pos rfl⟩⟩
 
 theorem buildAllDeps_invA {root : VersionKey} {reqs : NpmReqs} {all : AllDeps}
     (h : buildAllDeps root reqs = some all) : InvA root (fun x => x ∈ reqs.bundled) all := by
